@@ -610,7 +610,7 @@ def rule_tight_html(ctx, rep):
         rep.instance(rule)
         it = Interp(model, loop_bound=8)
         it.reset_run(Oracle())
-        r = T.clone_obj(cfg.obj)
+        r = T.clone_renderer(cfg.obj)
         try:
             out = it.call_function(hit[1], [r, build(tree)], {})
         except Raised as e:
